@@ -68,7 +68,7 @@ let () =
         let descs = if inputs = "-" then [] else String.split_on_char ',' inputs in
         let infos = List.map (fun d ->
           match String.split_on_char ':' d with
-          | [kind; cls; frozen; spent; mine; height; sq; _] ->
+          | [kind; cls; frozen; spent; mine; height; sq; wd] ->
               let c = (match cls with "1" -> CStaking (z_of_string frozen) | "2" -> CBinding | _ -> CStd) in
               let ad = addr_of mine in
               let hz = z_of_string height in
@@ -77,15 +77,24 @@ let () =
               let lk = (match kind with
                 | "M" -> LMissing | "B" -> LBadIndex
                 | _ -> LOut { u_class = c; u_prog = prog; u_value = z_of_i 7; u_height = hgt; u_spent = (spent = "1"); u_addr = ad }) in
-              (lk, z_of_string sq)
+              ((lk, z_of_string sq), (ad, wd))
           | _ -> failwith ("bad input description: " ^ d)) descs in
+        let wds = List.map snd infos in
+        let infos = List.map fst infos in
         let arr = Array.of_list infos in
         let env (op : z * z) : look =
           let i = int_of_z (fst op) in
           if i >= 0 && i < Array.length arr then fst arr.(i) else LMissing in
         let ins = List.mapi (fun i (_, sq) -> { in_prev = (z_of_i i, z_of_i 0); in_seq = sq; in_wit = [] }) infos in
         let outs = List.init (int_of_string nout) (fun i -> [z_of_i i]) in
-        let t = { t_ins = ins; t_outs = outs; t_rest = [] } in
+        let t0 = { t_ins = ins; t_outs = outs; t_rest = [] } in
+        (* witnesses an earlier successful call left: rebuilt over the model's signature scheme *)
+        let ins = List.mapi (fun i inp ->
+          match List.nth wds i with
+          | (Some a, wd) when String.length wd > 1 && wd.[0] = 'v' ->
+              { inp with in_wit = x_witness a (z_of_string (String.sub wd 1 (String.length wd - 1))) t0 (nat_of_int i) (z_of_i 7) }
+          | _ -> inp) ins in
+        let t = { t0 with t_ins = ins } in
         let (((r, st'), t'), ret) = x_sign_raw !zfix !sfix !nfix !pfix !cfg !warm !pend env !st (unhexl pass) (unhexl fl) t in
         st := st';
         let shape = (match List.map int_of_nat (wit_shape t') with
